@@ -303,6 +303,7 @@ package utils
 //@   ensures[C01:ids-recorded] r1 == nil ==> r0 != nil && r0.BackendID == backendID && r0.RequestID == requestID && r0.Contents != nil && r0.Contents.Header != nil
 //@   ensures[C09:user-is-the-proxy-asserted-one] r1 == nil ==> r0.User == old(hget(proxyResp.Header, "X-Inverting-Proxy-User-ID"))
 //@   ensures[C07:nil-on-error] r1 != nil ==> r0 == nil
+//@   ensures[C04:only-a-200-fetch-reply-is-a-request] old(proxyResp.StatusCode) != 200 ==> r1 != nil
 
 // ---- the serialising goroutine of a response forwarder (C03, C05, C07) ----
 // The response taken from the writer's channel is serialised, as it is, into the pipe that feeds the upload; the only
